@@ -642,8 +642,10 @@ func registerRuntime(m map[string]modelFn) {
 	m["runtime.GOMAXPROCS"] = func(fr *frame, a []Value) Value { return intC(4) }
 	m["runtime.NumCPU"] = func(fr *frame, a []Value) Value { return intC(4) }
 	m["internal/godebug.New"] = func(fr *frame, a []Value) Value { return (*Value)(nil) }
-	m["internal/godebug.(*Setting).Value"] = func(fr *frame, a []Value) Value { return Str{} }
-	m["internal/godebug.(*Setting).Name"] = func(fr *frame, a []Value) Value { return Str{} }
+	m["(*internal/godebug.Setting).Value"] = func(fr *frame, a []Value) Value { return Str{} }
+	m["(*internal/godebug.Setting).Name"] = func(fr *frame, a []Value) Value { return Str{} }
+	m["(*internal/godebug.Setting).IncNonDefault"] = func(fr *frame, a []Value) Value { return nil }
+	m["(*internal/godebug.Setting).Undocumented"] = func(fr *frame, a []Value) Value { return smt.False }
 	m["runtime.Caller"] = func(fr *frame, a []Value) Value {
 		return Tuple{smt.Const(64, 0), mkStr("?"), intC(0), smt.False}
 	}
